@@ -10,6 +10,7 @@ rejected, default copies when calling is unavailable).
 
 import copy
 import itertools
+import os
 import random
 from collections import Counter
 
@@ -50,7 +51,8 @@ def gen_plan(rng, tier, i, seed):
                           "cases": [gen_case(rng, tier) for _ in range(cfg["cases"])],
                           "advs": [rng.randint(0, 10**9) for _ in range(cfg["advs"])],
                           "jitter": rng.randint(0, 10**9), "fault_seed": rng.randint(0, 10**9),
-                          "config_clauses": i % 6 == 0}]}
+                          "config_clauses": i % 6 == 0, "pipeline_clauses": i % 24 == 6,
+                          "rundir_tag": i}]}
 
 
 def execute(plan, runner, rundir):
@@ -521,6 +523,75 @@ def config_clauses(seg, viol, stats):
                                         "expected_copies": want}})
 
 
+def pipeline_clauses(seg, viol, stats):
+    """The user-structure / default-copies clauses through genotype() on the inputs for which the profile
+    is not simply built from the arguments: a debug archive (the pickled profile is used) and a VCF
+    (copy-number calling unavailable).  The run is stopped as soon as the structure stage has returned."""
+    import tempfile
+
+    import pysam
+    from aldy.common import script_path
+    from aldy.gene import Gene
+    from aldy.genotype import genotype
+
+    class _Stop(Exception):
+        pass
+
+    def hook(e):
+        if e["stage"] == "estimate_major":
+            raise _Stop()
+
+    def structure(db, src, **kw):
+        SIM.stage_calls.clear()
+        SIM.stage_hook = hook
+        try:
+            genotype(db, src, kw.pop("profile", None), output_file=None, solver="cbc", **kw)
+        except _Stop:
+            pass
+        except Exception as ex:
+            return {"exc": f"{type(ex).__name__}: {ex}"[:200]}
+        finally:
+            SIM.stage_hook = None
+        for c in SIM.stage_calls:
+            if c["stage"] == "estimate_cn" and c["ret"]:
+                return {k: v for k, v in c["ret"][0].solution.items() if v}
+        return {"exc": "structure stage not reached"}
+
+    stats["config_checks"] += 4
+    dump = script_path("aldy.tests.resources/HARD.dump.tar.gz")
+    got = structure("pharmacoscan/cyp2d6", dump, cn_solution=["1", "1"])
+    if got != {"1": 2}:
+        viol.append({"clause": "user-supplied structure is not used verbatim",
+                     "detail": {"input": "debug archive (HARD.dump.tar.gz)", "given": ["1", "1"], "got": got}})
+    # a one-record VCF over G6PD (chromosome X), reference genotype
+    g = Gene(script_path("aldy.resources.genes/g6pd.yml"), genome="hg19")
+    d = tempfile.mkdtemp(prefix="c03vcf-", dir=os.environ.get("ALDYSIM_SCRATCH") or None)
+    try:
+        pos = sorted(g.chr_to_ref)[len(g.chr_to_ref) // 2]
+        ref = g[pos]
+        alt = "A" if ref != "A" else "C"
+        path = os.path.join(d, "x.vcf")
+        with open(path, "w") as f:
+            f.write("##fileformat=VCFv4.2\n##contig=<ID=%s,length=160000000>\n" % g.chr)
+            f.write('##FORMAT=<ID=GT,Number=1,Type=String,Description="Genotype">\n')
+            f.write("#CHROM\tPOS\tID\tREF\tALT\tQUAL\tFILTER\tINFO\tFORMAT\tS1\n")
+            f.write(f"{g.chr}\t{pos + 1}\t.\t{ref}\t{alt}\t.\t.\t.\tGT\t0/0\n")
+        vcf = pysam.tabix_index(path, preset="vcf", force=True)
+        for kw, want, clause in (
+            ({"male": True}, {"1": 1}, "default copies when copy-number calling is unavailable are wrong"),
+            ({}, {"1": 2}, "default copies when copy-number calling is unavailable are wrong"),
+            ({"cn_solution": ["1"]}, {"1": 1}, "user-supplied structure is not used verbatim"),
+        ):
+            got = structure("g6pd", vcf, genome="hg19", **dict(kw))
+            if got != want:
+                viol.append({"clause": clause, "detail": {"input": "VCF over an X-linked gene (G6PD)", "arguments": kw,
+                                                          "expected": want, "got": got}})
+    finally:
+        import shutil
+
+        shutil.rmtree(d, ignore_errors=True)
+
+
 def run_segment(seg):
     viol, sample = [], []
     stats = {"cases": 0, "runs": 0, "solutions": 0, "brute_structs": 0, "fired": {}, "ge2": 0, "shapes": set(),
@@ -531,6 +602,10 @@ def run_segment(seg):
     if seg.get("config_clauses"):
         SIM.reset({"max_solves": 4000, "max_wall": 90.0})
         config_clauses(seg, viol, stats)
+        stats["runs"] += 1
+    if seg.get("pipeline_clauses"):
+        SIM.reset({"max_solves": 4000, "max_wall": 90.0})
+        pipeline_clauses(seg, viol, stats)
         stats["runs"] += 1
     stats["shapes"] = sorted(stats["shapes"])
     return {"violations": viol[:10], "stats": stats, "sample": sample[:1]}
